@@ -3,3 +3,4 @@ pub mod codec;
 pub mod ct;
 pub mod psetflow;
 pub mod sighash;
+pub mod surface;
